@@ -407,4 +407,6 @@ func runC11(h *H) {
 		}
 		h.Do("json.parserem", hx(d))
 	}
+	// InputOffset / Buffered per call (c11off.go)
+	runC11off(h)
 }
